@@ -360,6 +360,20 @@ def parse_c_template(txt, natural=None):
         if t1 != t2:
             return None, False
         return (ctype_desc(t1) if t1 else None), True
+    # wrapping form: computed in one type, the result converted to another:  $0 = (R) ((T) $1 OP (T) $2);
+    m = re.fullmatch(r'\$0 = \((?P<r>[a-z0-9_ ]+)\) ?\((?:\((?P<t1>[a-z0-9_ ]+)\) ?)?\$1 (?P<op>[-+*/%&|^<>=!]+) (?:\((?P<t2>[a-z0-9_ ]+)\) ?)?\$2\);', t)
+    if m:
+        ty, ok = binty(m.group('t1'), m.group('t2'))
+        if not ok:
+            return ESig('other:mixed-casts', note=t)
+        sg = ESig('bin', m.group('op'), ty, operands=(1, 2), note=t)
+        sg.outer = ctype_desc(m.group('r'))
+        return sg
+    m = re.fullmatch(r'\$0 = \((?P<r>[a-z0-9_ ]+)\) ?- ?\((?P<t>[a-z0-9_ ]+)\) ?\$1;', t)
+    if m:
+        sg = ESig('unary', '-', ctype_desc(m.group('t')), operands=(1,), note=t)
+        sg.outer = ctype_desc(m.group('r'))
+        return sg
     m = re.fullmatch(r'\$0 = (?:\((?P<t1>[a-z0-9_ ]+)\) ?)?\$1 (?P<op>[-+*/%&|^<>=!]+) (?:\((?P<t2>[a-z0-9_ ]+)\) ?)?\$2;', t)
     if m:
         ty, ok = binty(m.group('t1'), m.group('t2'))
@@ -532,18 +546,23 @@ OVF_STMT = re.compile(r'(?P<flag>\w+) = __builtin_(?P<op>add|sub|mul)_overflow\(
 OVF_DECL = re.compile(r'\{ ?(?P<t>[a-z0-9_]+) (?P<n>\w+);')
 
 
+OVF_ASSIGN = re.compile(r'\$0 = (?P<n>\w+);')
+
+
 def parse_overflow(t):
-    """`[{T tmp; FLAG = __builtin_OP_overflow((T)$1, (T)$2, &tmp);}]* FLAG = __builtin_OP_overflow((T)$1, (T)$2, (T *)&$0);`
-    -> ESig 'bin' with .flags {flag name: type descriptor}, or None when the text has no overflow builtin.  The statement
-    writing the result must be the last one (the result may be one of the sources)."""
+    """`[{T tmp; FLAG = __builtin_OP_overflow((T)$1, (T)$2, &tmp); [$0 = tmp;]}]* [FLAG = __builtin_OP_overflow((T)$1, (T)$2, (T *)&$0);]`
+    -> ESig 'bin' with .flags {flag name: type descriptor}, or None when the text has no overflow builtin.  The result is
+    stored either by the last call (through a pointer to the destination) or by an assignment of one call's temporary that
+    follows the last call (the result may be one of the sources)."""
     if '_overflow(' not in t:
         return None
     temps = {m.group('n'): m.group('t') for m in OVF_DECL.finditer(t)}
     rest = OVF_DECL.sub('', t).replace('}', ' ')
     stmts = list(OVF_STMT.finditer(rest))
-    if not stmts or OVF_STMT.sub('', rest).strip():
+    asg = list(OVF_ASSIGN.finditer(rest))
+    if not stmts or OVF_ASSIGN.sub('', OVF_STMT.sub('', rest)).strip() or len(asg) > 1:
         return ESig('other:unparsed', note=t)
-    flags, res = {}, None
+    flags, res, rty = {}, None, None
     for i, m in enumerate(stmts):
         dt = m.group('t3') if m.group('t3') else temps.get(m.group('tmp'))
         if dt is None or not (m.group('t1') == m.group('t2') == dt):
@@ -552,12 +571,18 @@ def parse_overflow(t):
             return ESig('other:unparsed', note=t)
         flags[m.group('flag')] = ctype_desc(dt)
         if m.group('t3'):
-            if res is not None or i != len(stmts) - 1:
+            if res is not None or asg or i != len(stmts) - 1:
                 return ESig('other:result-written-before-the-last-flag', note=t)
-            res = m
+            res, rty = m, dt
+        elif asg and m.group('tmp') == asg[0].group('n'):
+            if res is not None:
+                return ESig('other:unparsed', note=t)
+            if asg[0].start() < stmts[-1].end():
+                return ESig('other:result-written-before-the-last-flag', note=t)
+            res, rty = m, dt
     if res is None:
         return ESig('other:unparsed', note=t)
-    sg = ESig('bin', {'add': '+', 'sub': '-', 'mul': '*'}[res.group('op')], ctype_desc(res.group('t3')), operands=(1, 2), note=t)
+    sg = ESig('bin', {'add': '+', 'sub': '-', 'mul': '*'}[res.group('op')], ctype_desc(rty), operands=(1, 2), note=t)
     sg.flags = flags
     return sg
 
@@ -656,11 +681,11 @@ def check_against_spec(spec, sig, fp_by_operand=False, branch_as_value=False):
             return 'operator is %s, the opcode name demands %s' % (sig.op, spec.op)
         if sig.operands and None not in sig.operands and tuple(sig.operands) != (1, 2):
             return 'operands are taken in order %s, expected (1, 2)' % (sig.operands,)
-        return check_type(spec, sig.ty, fp_by_operand)
+        return check_type(spec, sig.ty, fp_by_operand) or check_outer(spec, sig)
     if k == 'unary':
         if sig.kind != 'unary' or sig.op != spec.op:
             return 'expected unary %s, found %s' % (spec.op, sig.show())
-        return check_type(spec, sig.ty, fp_by_operand)
+        return check_type(spec, sig.ty, fp_by_operand) or check_outer(spec, sig)
     if k == 'ext':
         if sig.kind != 'conv' or not sig.chain:
             return 'expected an extension (conversion through a narrow type), found %s' % sig.show()
@@ -696,6 +721,32 @@ def check_against_spec(spec, sig, fp_by_operand=False, branch_as_value=False):
         elif src[0] != spec.dom:
             return 'source is %s, the opcode name demands %s' % (tshow(src), spec.dom)
         return None
+    return None
+
+
+def check_outer(spec, sig):
+    """the conversion applied to the computed value before it is stored (wrapping templates): same width, signed, so that
+    the 64-bit C variable receives the sign-extended result like every other template of that width"""
+    o = getattr(sig, 'outer', None)
+    if o is None:
+        return None
+    if o[0] != 'i' or o[1] != spec.width:
+        return 'result converted to %s, the opcode name demands a %d-bit integer result' % (tshow(o), spec.width)
+    if spec.kind in ('arith', 'unary') and o[2] is not True:
+        return 'result converted to %s: the stored value is not sign-extended like the other %d-bit results' % (tshow(o), spec.width)
+    return None
+
+
+WRAP_OPS = ('+', '-', '*', '<<')
+
+
+def wrap_reason(spec, sig):
+    """C clause of the mir2c templates: MIR integer +, -, *, <<, unary - wrap around; in C the signed forms are undefined on
+    overflow (an optimising C compiler folds `x + 1 < x`), so the template has to compute in the unsigned type"""
+    if spec.dom != 'i' or spec.kind not in ('arith', 'unary') or sig.op not in WRAP_OPS or sig.kind not in ('bin', 'unary'):
+        return None
+    if sig.ty is not None and sig.ty[0] == 'i' and sig.ty[2] is True:
+        return 'computed as signed %d-bit `%s`: overflow is undefined behaviour in C while the MIR instruction wraps around' % (sig.ty[1], sig.op)
     return None
 
 
@@ -782,6 +833,8 @@ def rf8(run, engines=('interp', 'folder', 'mir2c')):
                 bad = unk = None
                 for desc, sv in sig.variants:
                     w_ = check_against_spec(sp, sv, fpo)
+                    if w_ is None and eng == 'mir2c':
+                        w_ = wrap_reason(sp, sv)
                     if w_ is not None and sv.kind.startswith('other'):
                         unk = unk or (desc, sv, w_)
                     elif w_ is not None:
@@ -798,6 +851,8 @@ def rf8(run, engines=('interp', 'folder', 'mir2c')):
                                   line=sig.node['l'] if sig.node else f.line, slots={'extracted': bad[1].show(), 'spec': repr(sp)})
                 continue
             why = check_against_spec(sp, sig, fpo, branch_as_value=(eng == 'folder'))
+            if why is None and eng == 'mir2c':
+                why = wrap_reason(sp, sig)
             if why is not None and (sig is None or sig.kind.startswith('other')):
                 run.ob(rule, (eng, c), False)
                 run.analysis_broken(rule, '%s: %s of %s: %s' % (eng, f.name, c, why))
